@@ -423,6 +423,13 @@ def judge_c16(cfg, market, out, ctx):
 
 
 # ---------------------------------------------------------------------------
+def plan_is_bad(cfg):
+    """Configurations the generator made invalid on purpose (negative long-only weights, bad leverage, ...)."""
+    return bool(cfg.get("bad")) or (cfg["long_only"] and cfg["alpha"]["kind"] == "fixed" and
+                                    any(v < 0 for v in cfg["alpha"]["weights"].values())) or \
+        ((not cfg["long_only"]) and not (cfg["leverage"] > 0))
+
+
 def judge_c19(cfg, market, out, ctx):
     P = "C19"
     u = cfg["universe"]
@@ -430,6 +437,25 @@ def judge_c19(cfg, market, out, ctx):
         ctx.probe("c19_custom_universe:not_judged")     # the property speaks about the two shipped universes
         return
     entries = u.get("entries") if u["kind"] == "dynamic" else None
+    # "included from the first such rebalance onward": a rebalance that FAILS although every asset it has to size -
+    # universe members (newcomers among them), holdings, weighted assets - has a price at that instant
+    if (entries is not None and out.exc is not None and out.rec.pcm and out.rec.pcm[-1]["exc"] is not None
+            and not plan_is_bad(cfg)):
+        last = out.rec.pcm[-1]
+        t = last["t"]
+        ref = RefPrices(market)
+        w_keys = set()
+        sz = last.get("sizer")
+        if sz and sz.get("weights"):
+            w_keys = set(sz["weights"])
+        need = set(rb.universe_at(cfg, t)) | set(last["held"]) | w_keys
+        newcomers = [a for a in rb.universe_at(cfg, t) if entries.get(a) is not None and entries[a] > cfg["start"]]
+        priced = all(ref.price(a, t) == ref.price(a, t) for a in need)
+        if newcomers and priced and last["exc"] in ("ValueError", "KeyError"):
+            ctx.violate(P, "rebalance_failed_although_every_member_has_a_price",
+                        {"t": iso(t), "exc": out.exc, "members": sorted(rb.universe_at(cfg, t)), "entered_after_start": newcomers},
+                        sig="rebalance_failed_although_every_member_has_a_price")
+            return
     first_pcm_for = {}
     for p in out.rec.pcm:
         t = p["t"]
@@ -665,8 +691,8 @@ def judge_sizer(cfg, out, ctx, P):
                 p = prices[a]
                 wa = w[a]
                 alloc = 0.0 if gw == 0 else E * wa * L / gw
-                sgn = (q > 0) - (q < 0)
-                swa = (wa > 0) - (wa < 0)
+                sgn = int(q > 0) - int(q < 0)
+                swa = int(wa > 0) - int(wa < 0)
                 if not ctx.check(P, sgn in (0, swa), "quantity_sign_differs_from_weight_sign",
                                  lambda: {"asset": a, "q": q, "w": wa}, sig="quantity_sign_differs_from_weight_sign"):
                     return
